@@ -24,11 +24,11 @@ func TestVerif(t *testing.T) {
 		ID:    "C16",
 		Level: "model_checking",
 		Rule: "auth.Client over an in-process transport hosting two registries (a.example, and b.example or - same host name, other port - a.example:8443) and their token realms (one on the registry's own host, one on a foreign host), each with distinct recognisable secrets. " +
-			"sequential: every request sequence of length <= 3 (thorough 4) over {registry A|B} x {scope hint r1:pull | r2:pull,push | none} plus a request that registry A redirects to registry B, for every pair of per-registry auth modes {Basic, Bearer distribution, Bearer OAuth2 refresh token, Bearer OAuth2 password+ForceAttemptOAuth2, access token}, " +
+			"sequential: every request sequence of length <= 3 (thorough 4) over {registry A|B} x {scope hint r1:pull | r2:pull,push | none} plus a request that registry A redirects to registry B and the base endpoint /v2/ of registry A (whose Bearer challenge names no scope) with and without a scope hint, for every pair of per-registry auth modes {Basic, Bearer distribution, Bearer OAuth2 refresh token, Bearer OAuth2 password+ForceAttemptOAuth2, access token}, " +
 			"every cache flavour {none, shared, single-context}, a scheme change of registry A after request {never,1,2}, and 3 renderings of the challenge scope string (order / duplication / wildcard action). " +
 			"concurrent: 2-3 goroutines through one cache (same host and scope, same host different scopes, different hosts, first caller cancelled during the token fetch) under every schedule within D<=2. " +
 			"Oracle at the innermost transport: every outgoing request is scanned (headers, query, body) for every secret of the other registry; passwords/refresh tokens only to the registry that challenged Basic or to the realm that registry advertised; " +
-			"with valid credentials the answer is non-401 after <= 3 sends to the registry and <= 1 token fetch per request; a bearer token is attached only at the host that issued it, and for the shared cache only when its canonical scope set is the request's. " +
+			"with valid credentials the answer is non-401 after <= 3 sends to the registry and <= 1 token fetch per request; a bearer token is attached only at the host that issued it, and (no cache or shared cache) only when the canonical scope set it was issued for is the set the request declared as hints or that set joined with the scopes the registry asked for in the same exchange. " +
 			"Separately CleanScopes over every scope list of <= 3 items from a 7-item alphabet: idempotent, order-insensitive, duplicate-free, wildcard-absorbing. non-trivial = distinct sequence containing both hosts or a cache hit",
 		Assumptions: []string{
 			"the Authorization copy made by the blob upload path of Repository is Repository code, not the auth client, and is outside this property",
@@ -66,13 +66,15 @@ type world struct {
 	sends     map[string]int // per request id: sends to the registry
 	fetches   int
 	scopeForm int
-	cancelOn  func() // called by the realm on its first hit (concurrent hand-over scenario)
+	cancelOn  func()            // called by the realm on its first hit (concurrent hand-over scenario)
+	cacheKind string            // none | shared | single: which token cache the client under test uses
+	asked     map[string]string // per request id: canonical scope set of the last challenge sent for it
 	realmHits int
 	cacheHits int
 }
 
 func newWorld(modeA, modeB string, scopeForm int) *world {
-	w := &world{regs: map[string]*regSpec{}, realmOf: map[string]string{}, tokens: map[string]issued{}, sends: map[string]int{}, scopeForm: scopeForm}
+	w := &world{regs: map[string]*regSpec{}, realmOf: map[string]string{}, tokens: map[string]issued{}, sends: map[string]int{}, scopeForm: scopeForm, asked: map[string]string{}}
 	w.regs["a.example"] = &regSpec{host: "a.example", realm: "https://a.example/token", user: "userA", pass: "PASSWORD-A", refresh: "REFRESH-A", token: "ACCESS-A", mode: modeA}
 	w.regs[hostB] = &regSpec{host: hostB, realm: "https://auth.example/b/token", user: "userB", pass: "PASSWORD-B", refresh: "REFRESH-B", token: "ACCESS-B", mode: modeB}
 	for h, r := range w.regs {
@@ -143,6 +145,41 @@ func covers(granted []string, need string) bool {
 		}
 	}
 	return false
+}
+
+// canonSet is the harness's own canonical form of a scope set: per resource the sorted,
+// duplicate-free action list, "*" absorbing the others; resources sorted.
+func canonSet(in []string) string {
+	m := map[string]map[string]bool{}
+	for _, s := range in {
+		p := strings.SplitN(s, ":", 3)
+		if len(p) != 3 {
+			m[s] = map[string]bool{}
+			continue
+		}
+		k := p[0] + ":" + p[1]
+		if m[k] == nil {
+			m[k] = map[string]bool{}
+		}
+		for _, a := range strings.Split(p[2], ",") {
+			m[k][a] = true
+		}
+	}
+	var out []string
+	for k, as := range m {
+		if as["*"] {
+			out = append(out, k+":*")
+			continue
+		}
+		var al []string
+		for a := range as {
+			al = append(al, a)
+		}
+		sort.Strings(al)
+		out = append(out, k+":"+strings.Join(al, ","))
+	}
+	sort.Strings(out)
+	return strings.Join(out, " ")
 }
 
 func (w *world) challengeScope(need []string) string {
@@ -224,6 +261,7 @@ func (w *world) RoundTrip(req *http.Request) (*http.Response, error) {
 	authz := req.Header.Get("Authorization")
 	w.log = append(w.log, fmt.Sprintf("%s %s%s auth=%q", id, host, req.URL.Path, trunc(authz)))
 	need := required(req.URL.Path)
+	hint := strings.Fields(req.Header.Get("X-Verif-Hint"))
 	switch r.mode {
 	case "basic":
 		if authz == "Basic "+base64.StdEncoding.EncodeToString([]byte(r.user+":"+r.pass)) {
@@ -242,12 +280,34 @@ func (w *world) RoundTrip(req *http.Request) (*http.Response, error) {
 			if is, ok := w.tokens[tok]; ok {
 				if is.host != owner {
 					w.fails = append(w.fails, fmt.Sprintf("a bearer token issued for %s was attached to a request to %s", is.host, owner))
-				} else if covers(is.scopes, need[0]) {
-					return resp(req, 200, nil, "ok"), nil
+				} else {
+					// a cached token is reused only for the same canonical scope set: what this request brought
+					// along as hints, or that joined with what the registry asked for in this very exchange
+					// (NewSingleContextCache documents per-host reuse and is not judged here)
+					got := canonSet(is.scopes)
+					first := canonSet(hint)
+					joined := first
+					if a, ok := w.asked[id]; ok {
+						joined = canonSet(append(append([]string{}, hint...), strings.Fields(a)...))
+					}
+					if w.cacheKind != "single" && got != first && got != joined {
+						w.fails = append(w.fails, fmt.Sprintf("a bearer token issued for the scope set {%s} was attached to request %s whose scope set is {%s} (with the registry's challenge: {%s})", got, id, first, joined))
+					}
+					if need == nil || covers(is.scopes, need[0]) {
+						return resp(req, 200, nil, "ok"), nil
+					}
 				}
 			}
 		}
-		ch := fmt.Sprintf(`Bearer realm="%s",service="%s",scope="%s"`, r.realm, owner, w.challengeScope(need))
+		if need == nil {
+			// the base endpoint asks for a token without naming a scope
+			w.asked[id] = ""
+			ch := fmt.Sprintf(`Bearer realm="%s",service="%s"`, r.realm, owner)
+			return resp(req, 401, http.Header{"Www-Authenticate": {ch}}, ""), nil
+		}
+		cs := w.challengeScope(need)
+		w.asked[id] = cs
+		ch := fmt.Sprintf(`Bearer realm="%s",service="%s",scope="%s"`, r.realm, owner, cs)
 		return resp(req, 401, http.Header{"Www-Authenticate": {ch}}, ""), nil
 	}
 }
@@ -312,6 +372,7 @@ func (t transport) RoundTrip(req *http.Request) (*http.Response, error) {
 
 func newClient(w *world, cache string) *auth.Client {
 	c := &auth.Client{Client: &http.Client{Transport: transport{w}}, Credential: w.credential}
+	w.cacheKind = cache
 	for _, r := range w.regs {
 		if r.mode == "oauth-pass" {
 			c.ForceAttemptOAuth2 = true // client-wide: the other registry's password then also travels by the OAuth2 password grant
@@ -334,7 +395,9 @@ type reqKind struct {
 }
 
 // the last kind asks registry A for repository "rd", which A answers with a redirect to registry B
-var reqKinds = []reqKind{{"a.example", "r1"}, {"a.example", "r2"}, {"a.example", ""}, {"b.example", "r1"}, {"b.example", "r2"}, {"b.example", ""}, {"a.example", "rd"}}
+var reqKinds = []reqKind{{"a.example", "r1"}, {"a.example", "r2"}, {"a.example", ""}, {"b.example", "r1"}, {"b.example", "r2"}, {"b.example", ""}, {"a.example", "rd"},
+	// the base endpoint /v2/ of registry A, whose challenge names no scope: without and with a scope hint
+	{"a.example", "ping"}, {"a.example", "ping+r2"}}
 
 // hostB is the name of registry B for the current execution: "b.example", or
 // "a.example:8443" - the same host name as registry A on another port, still a
@@ -346,17 +409,30 @@ func doReq(ctx context.Context, c *auth.Client, id string, k reqKind) (*http.Res
 		k.host = hostB
 	}
 	repo := k.repo
-	if repo == "" {
+	hint := ""
+	path := ""
+	switch {
+	case repo == "":
 		repo = "r1"
-	} else {
+	case repo == "ping":
+		path = "/v2/"
+	default:
+		if repo == "ping+r2" {
+			path, repo = "/v2/", "r2"
+		}
 		actions := []string{auth.ActionPull}
-		if k.repo == "r2" {
+		if repo == "r2" {
 			actions = []string{auth.ActionPull, auth.ActionPush}
 		}
-		ctx = auth.AppendScopesForHost(ctx, k.host, auth.ScopeRepository(k.repo, actions...))
+		hint = auth.ScopeRepository(repo, actions...)
+		ctx = auth.AppendScopesForHost(ctx, k.host, hint)
 	}
-	req, _ := http.NewRequestWithContext(ctx, http.MethodGet, "https://"+k.host+"/v2/"+repo+"/manifests/latest", nil)
+	if path == "" {
+		path = "/v2/" + repo + "/manifests/latest"
+	}
+	req, _ := http.NewRequestWithContext(ctx, http.MethodGet, "https://"+k.host+path, nil)
 	req.Header.Set("X-Verif-Req", id)
+	req.Header.Set("X-Verif-Hint", hint) // read by the registry double only: the scope set the caller declared
 	return c.Do(req)
 }
 
@@ -472,6 +548,8 @@ func sig(f string) string {
 		return "password or refresh token sent to a registry that did not challenge with Basic"
 	case strings.HasPrefix(f, "a token cached under the Basic"):
 		return "a cached token was reused under another scheme"
+	case strings.HasPrefix(f, "a bearer token issued for the scope set"):
+		return "a cached bearer token was reused for a different scope set"
 	case strings.HasPrefix(f, "a bearer token issued"):
 		return "a bearer token was attached to a request for another host"
 	}
